@@ -108,16 +108,34 @@ class ContractMixin:
                         mods['guards'][r_of(bt).get_id()] = smt.simp(is_ref(bt))
                 elif isinstance(a, ast.Call) and isinstance(a.func, ast.Name) and a.func.id == 'ghost':
                     mods['ghost'].append(a.args[0].value)
+                elif isinstance(a, ast.Call) and isinstance(a.func, ast.Name) and a.func.id == 'younger_instances':
+                    # younger_instances(x, Class): the fields of x itself and of every instance of Class allocated after x
+                    base = self.sev(st, a.args[0], env, c.module)
+                    cv = self.sev(st, a.args[1], env, c.module)
+                    mods.setdefault('younger', []).append((r_of(self.to_term(st, base)), cv.ci))
                 else:
                     raise Unsupported(f'modifies item {ast.unparse(a)}')
         return mods
+
+    def grow_trace(self, st: St):
+        """unknown code ran: the ghost trace of user calls may have grown (it never shrinks or changes its past)"""
+        old = st.TR
+        st.TR = z3.Concat(old, smt.fresh('TRsuffix', smt.SeqV))
+        j = smt.fresh('gj', smt.Int)
+        st.assume(z3.ForAll([j], z3.Implies(AND(j >= 0, j < z3.Length(old)), st.TR[j] == old[j])))
+        # every element of the trace is a call-event record (objects of the ghost class UserCallEvent, never modified)
+        ev = self.cls('UserCallEvent').id
+        st.assume(z3.ForAll([j], z3.Implies(AND(j >= 0, j < z3.Length(st.TR)),
+                                            AND(is_ref(st.TR[j]), z3.Select(st.CL, r_of(st.TR[j])) == I(ev)))))
 
     def apply_modifies(self, st: St, mods):
         """havoc the locations a callee may write"""
         if mods['all']:
             self.havoc_all(st)
+            self.grow_trace(st)
             return
         if mods.get('user'):
+            self.grow_trace(st)
             # whatever unknown user code may do: everything except plumpy-internal objects (A-PRIV frame of the unit)
             self.havoc_user(st)
         def cond(r, new, old):
@@ -140,6 +158,11 @@ class ContractMixin:
         for g in mods['ghost']:
             arr = st.ghost[g]
             st.ghost[g] = smt.fresh('g' + g, arr.sort())
+        for (r0, ci) in mods.get('younger', []):
+            fH = smt.fresh('yH', smt.HeapSort)
+            rq = z3.Const('r!y', smt.Int)
+            oldH = st.H
+            st.H = z3.Lambda([rq], z3.If(AND(rq >= r0, self.is_subclass_term(z3.Select(st.CL, rq), ci)), z3.Select(fH, rq), z3.Select(oldH, rq)))
         a0 = st.A
         st.A = smt.fresh('A', smt.Int)
         st.assume(st.A >= a0)
@@ -174,6 +197,14 @@ class ContractMixin:
                 outs.append(b)
                 continue
             s2, loc = b
+            if fi is not None and fi.cls is not None and fi.kind in ('method', 'property', 'setter') and c.node.args.args:
+                # the receiver of a method found on class K is an instance of K: let declared attribute types of K apply
+                p0 = c.node.args.args[0].arg
+                v0 = loc.get(p0)
+                if isinstance(v0, SV) and v0.kind in (None, 'ref') and not v0.exact and not fi.cls.external \
+                        and (v0.cls is None or (v0.cls is not fi.cls and v0.cls in fi.cls.mro)):
+                    if self.entails(s2, AND(is_ref(v0.term), self.is_subclass_term(z3.Select(s2.CL, r_of(v0.term)), fi.cls))):
+                        loc[p0] = SV(v0.term, 'ref', fi.cls)
             for g in c.ghost:
                 if g not in loc or (isinstance(loc[g], tuple) and loc[g][0] == 'default'):
                     # ghost arguments are chosen by the caller: its own ghost of the same name if it has one
@@ -186,13 +217,24 @@ class ContractMixin:
                 from .calls import KwDictV
                 if isinstance(val, KwDictV):
                     loc[p] = self.materialise_kwdict(s2, val)
+            from .values import BoundV as _BoundV, LambdaV as _LambdaV, TupleV as _TupleV
+            for p, val in list(loc.items()):
+                # values that are allocated on materialisation (bound methods, closures, tuples) exist BEFORE the call: give
+                # them their heap identity now, not lazily inside a postcondition (where they would look younger than the
+                # fields that hold them -- a contradiction that silently removed the path)
+                if isinstance(val, (_BoundV, _LambdaV, _TupleV)) or (isinstance(val, FuncV) and val.env is not None) \
+                        or type(val).__name__ == 'PartialV':
+                    self.to_term(s2, val)
             for g in c.ghost:
                 if g not in loc:
                     loc[g] = SV(smt.fresh('ghost_' + g, Val))
             env = self.contract_env(c, tmod, loc)
             dbg0 = os.environ.get('PYVC_DEBUG_CONTRACT') == c.target
             if dbg0:
-                print('DEBUG enter', c.target, 'feasible:', self.feasible(s2))
+                print('DEBUG enter', c.target, 'feasible:', self.feasible(s2), 'chain:', self.call_chain(st), 'line', getattr(node, 'lineno', None), 'notes', st.notes[-6:])
+                if os.environ.get('PYVC_DEBUG_STACK'):
+                    import traceback
+                    traceback.print_stack(limit=int(os.environ['PYVC_DEBUG_STACK']))
             self.run_lets(s2, c, env, 'pre')
             if dbg0:
                 print('   after lets:', self.feasible(s2))
@@ -471,6 +513,9 @@ class ContractMixin:
         else:
             outs = self.inline(st, fv, args, None)
         self.stats['paths'] += len(outs)
+        if os.environ.get('PYVC_DEBUG_OUTS'):
+            for o in outs:
+                print('OUT', o.kind, getattr(o.val, 'cls', None), 'feasible=', self.feasible(o.st), [n for n in o.st.notes][-3:])
         mods = None
         for o in outs:
             self.check_outcome(o, c, env, fi)
@@ -600,7 +645,7 @@ class ContractMixin:
     def check_frame(self, st: St, c: Contract, env):
         pre = env['__old__']
         mods = self.parse_modifies(pre, c, env)
-        if mods['all'] or mods.get('user'):
+        if mods['all'] or mods.get('user') or mods.get('younger'):
             return
         r = smt.fresh('fr', smt.Int)
         a = smt.fresh('fa', smt.Str)
